@@ -1548,7 +1548,12 @@ func (v *Verifier) reindexTerm(t *Term) *Term {
 	if t.Op == "forall" || t.Op == "exists" {
 		body := v.reindexTerm(t.Args[0])
 		vars, nb := v.reindexQuant(append([]*Term(nil), t.Binders...), body)
-		return &Term{Op: t.Op, Sort: t.Sort, Binders: vars, Args: append([]*Term{nb}, t.Args[1:]...)}
+		pats := t.Args[1:]
+		if len(pats) == 0 && t.Op == "forall" && len(vars) == 1 && vars[0] == t.Binders[0] {
+			// not re-based (several offsets): give every indexed read as an alternative trigger
+			pats = selectPatterns(nb, vars[0].Op)
+		}
+		return &Term{Op: t.Op, Sort: t.Sort, Binders: vars, Args: append([]*Term{nb}, pats...)}
 	}
 	na := make([]*Term, len(t.Args))
 	changed := false
@@ -1562,4 +1567,41 @@ func (v *Verifier) reindexTerm(t *Term) *Term {
 		return t
 	}
 	return rebuild(t, na)
+}
+
+// selectPatterns: the distinct innermost `select arr idx` terms whose index contains
+// the bound variable x linearly and no nested occurrence: alternative triggers.
+func selectPatterns(body *Term, x string) []*Term {
+	var out []*Term
+	seen := map[string]bool{}
+	visited := map[*Term]bool{}
+	var walk func(t *Term)
+	walk = func(t *Term) {
+		if t.IsLit || visited[t] {
+			return
+		}
+		visited[t] = true
+		if t.Op == "forall" || t.Op == "exists" {
+			return
+		}
+		if t.Op == "select" && len(t.Args) == 2 && t.Args[1].Sort == SInt {
+			cs := map[string]string{}
+			t.Args[1].Symbols(cs, map[string]bool{})
+			if _, has := cs[x]; has {
+				coef, _, lin := linearIn(t.Args[1], x)
+				as := map[string]string{}
+				t.Args[0].Symbols(as, map[string]bool{})
+				_, inArr := as[x]
+				if lin && coef != nil && coef.Sign() != 0 && !inArr && !seen[t.String()] && len(out) < 6 {
+					seen[t.String()] = true
+					out = append(out, t)
+				}
+			}
+		}
+		for _, a := range t.Args {
+			walk(a)
+		}
+	}
+	walk(body)
+	return out
 }
